@@ -96,7 +96,7 @@ def run(filter_=None, prop=None):
                 os.makedirs(os.path.join(ev, 'tables'), exist_ok=True)
                 for t in glob.glob(V + '/tables/*'): shutil.copy(t, os.path.join(ev, 'tables'))
                 for pr in props:
-                    r = sh('%s/bin/verifchk -prop %s -repo %s -verif %s' % (V, pr, d, ev))
+                    r = sh('%s -prop %s -repo %s -verif %s' % (os.environ.get('VCHK', V + '/bin/verifchk'), pr, d, ev))
                     viol = [l for l in r.stdout.split('\n') if l.startswith('violation:')]
                     if r.returncode != 0: fired[pr] = viol[:3] or [r.stdout[-300:] + r.stderr[-300:]]
                 shutil.rmtree(ev, ignore_errors=True)
